@@ -6,6 +6,9 @@ def replay(case):
     from . import c18, tv
     from fpy2.interpret import byte, interpreter as interp_mod
     t = case['task']; inp = case['inputs']
+    if t.get('kind') == 'sched':
+        from . import c18_sched
+        return c18_sched.replay_sched(c18, case)
     p, f, ns = c18.load(t['prog'])
     shape = [tuple(c) for c in t['shape']]
     problems = []
